@@ -1,6 +1,6 @@
 (* C13 - Read size limit is enforced on frames, fragments and inflated size. *)
 From Gws Require Import Lib.Base Spec.MaskSpec Spec.Rfc6455 Spec.Rfc6455Recv Model.Header Model.CloseCode Model.Reader
-  Proofs.FrameProofs Proofs.ReaderProofs Proofs.ReaderRefine.
+  Proofs.FrameProofs Proofs.ReaderProofs Proofs.ReaderRefine Proofs.FragmentProofs.
 Local Open Scope N_scope.
 
 Section C13.
@@ -61,6 +61,22 @@ Theorem C13_within_limit_delivered : forall c st lf f rest,
   exists st', read_message utf8_valid inflate W wdict wwrite c st (encode_frame lf f ++ rest)
               = SCont W [EvMsg (f_op f) (f_payload f)] st' rest.
 Proof. exact (within_limit_delivered utf8_valid inflate W wdict wwrite). Qed.
+
+(* ... and in every other shape: a message in any number of fragments (any boundaries, ping/pong frames in between),
+   compressed or not, whose reassembled wire size is within the limit - including exactly at it - and which, when
+   compressed, inflates to d within the limit, is delivered as d, once, after the control callbacks *)
+Theorem C13_within_limit_delivered_fragmented : forall c st fuel comp op lf0 k0 p0 cs0 mids lfl kl pl d,
+  limit_ok c -> cf_init W st = false ->
+  (op = 1 \/ op = 2) -> (comp = true -> r_pmd c = true) ->
+  Forall (ctl_ok (scfg_of c)) cs0 -> Forall (fun m => Forall (ctl_ok (scfg_of c)) (midw_ctls m)) mids ->
+  let wire := message_wire (r_server c) comp op lf0 k0 p0 cs0 mids lfl kl pl in
+  let payload := p0 ++ concat (map midw_payload mids) ++ pl in
+  Forall sendable wire -> (Z.of_nat (length payload) <= r_limit c)%Z -> (length (enc_stream wire) < fuel)%nat ->
+  (if comp then inflate (wdict (r_dps W st)) (payload ++ inflate_tail) (r_limit c) = Some d else d = payload) ->
+  (r_utf8 c && (op =? 1) && negb (utf8_valid d)) = false ->
+  exists st', read_stream utf8_valid inflate W wdict wwrite fuel c st (enc_stream wire)
+              = (map ev_map (map ctl_event (cs0 ++ flat_map midw_ctls mids)) ++ [EvMsg op d], OMore W st' false).
+Proof. exact (reader_fragmented_delivered utf8_valid inflate W wdict wwrite). Qed.
 End C13.
 
 (* non-vacuity: limit 4; a 4-byte message is delivered, a 5-byte one answered 1009, 3+2 bytes in fragments answered 1009 *)
@@ -76,3 +92,4 @@ Print Assumptions C13_no_oversize_delivery.
 Print Assumptions C13_frame_too_large.
 Print Assumptions C13_fragments_too_large.
 Print Assumptions C13_within_limit_delivered.
+Print Assumptions C13_within_limit_delivered_fragmented.
